@@ -45,6 +45,7 @@ structure FsState where
   activeFat : Nat := 0
   bpbDirty : Bool := false       -- status flags read from the BPB at mount
   bpbIoErr : Bool := false
+  statusRaw : Nat := 0           -- the whole status byte (`reserved_1`) read from the BPB at mount
   volumeId : Nat := 0
   volumeLabel : List Nat := []
   -- interior-mutable part
